@@ -17,6 +17,10 @@
 
 package vanguard
 
+// frames (macros)
+//@ define LIB = $map|, $elems|, $buf|, $connerr|
+//@ define RWEND = $vanguard.responseWriter.headersFlushed, $vanguard.responseWriter.buf, $vanguard.responseWriter.err, $vanguard.responseWriter.endWritten, $vanguard.responseWriter.respMeta, $vanguard.responseMeta.end, $vanguard.responseEnd., #LIB
+
 // ------------------------------------------------------------------------------------------------
 // C12 / C04: tables and timeouts (loop-free, complete over the whole input domain)
 
@@ -147,7 +151,7 @@ package vanguard
 //@   track flushes = (net/http.Flusher).Flush
 //@   ensures[C16] old(w.buf) == nil ==> flushes == 1
 //@   ensures[C16,C03] old(w.buf) != nil ==> flushes == 0
-//@   modifies w.op
+//@   modifies
 
 //@ func (*responseWriter).writeEnd
 //@   requires validRW(w) && end != nil && !w.endWritten
@@ -155,6 +159,7 @@ package vanguard
 //@   ensures[C03] w.endWritten && ends == 1
 //@   ensures w.headersFlushed == old(w.headersFlushed) && w.err == old(w.err) && w.buf == old(w.buf) && w.respMeta == old(w.respMeta)
 //@   ensures w.headersWritten == old(w.headersWritten) && w.w == old(w.w) && validRW(w)
+//@   modifies w.endWritten, $map|, $elems|, $buf|, $connerr|
 
 // encodeEnd of every client protocol: writes only to the given (external) writer, header maps
 // and pooled buffers; never touches the response state machine.
@@ -179,3 +184,114 @@ package vanguard
 //@ func (restClientProtocol).encodeEnd
 //@   requires endCall(op, end, writer)
 //@   modifies $map|, $elems|, $buf|, $connerr|
+
+//@ axiom errFinalDataAlreadyWritten != nil
+//@ axiom context.Canceled != nil
+//@ axiom errNotFound != nil
+
+//@ func (*responseWriter).flushHeaders
+//@   requires validRW(w) && (w.headersFlushed || (w.respMeta != nil && !w.endWritten))
+//@   requires (w.buf != nil ==> !w.headersFlushed) && (w.endWritten ==> w.err != nil)
+//@   track heads = (net/http.ResponseWriter).WriteHeader
+//@   atcall[C03,C11] (net/http.ResponseWriter).WriteHeader: !w.headersFlushed && heads == 1
+//@   atcall[C03] (net/http.ResponseWriter).WriteHeader: w.buf != nil && !(w.respMeta.end != nil && w.respMeta.end.err != nil) ==> decval(hdr(uf("hdrOf", w.delegate), "Content-Length")) == blen(w.buf)
+//@   ensures[C03,C11] heads == ite(old(w.headersFlushed), 0, 1)
+//@   ensures[C03] w.headersFlushed && w.buf == nil
+//@   ensures[C03] old(w.headersFlushed) ==> w.endWritten == old(w.endWritten) && w.err == old(w.err)
+//@   ensures[C03] !old(w.headersFlushed) ==> w.endWritten == (w.respMeta.end != nil)
+//@   ensures[C03] w.endWritten ==> w.err != nil
+//@   ensures validRW(w) && w.respMeta == old(w.respMeta) && w.w == old(w.w) && w.headersWritten == old(w.headersWritten)
+//@   modifies w.headersFlushed, w.buf, w.err, w.endWritten, $map|, $elems|, $buf|, $connerr|
+
+//@ func (*responseWriter).reportEnd
+//@   requires rwInv(w) && end != nil
+//@   ensures[C03,C09] rwInv(w) && w.endWritten
+//@   ensures[C03] old(w.endWritten) ==> w.err == old(w.err) && w.headersFlushed == old(w.headersFlushed) && w.respMeta == old(w.respMeta) && w.buf == old(w.buf)
+//@   ensures w.w == old(w.w) && w.headersWritten == old(w.headersWritten)
+//@   modifies w.headersFlushed, w.buf, w.err, w.endWritten, w.respMeta, end.trailers, w.respMeta.end, $map|, $elems|, $buf|, $connerr|
+
+//@ func (*responseWriter).reportError
+//@   requires rwInv(w)
+//@   ensures[C03,C09] rwInv(w) && w.endWritten
+//@   ensures w.w == old(w.w) && w.headersWritten == old(w.headersWritten)
+//@   modifies w.headersFlushed, w.buf, w.err, w.endWritten, w.respMeta, $vanguard.responseMeta.end, $vanguard.responseEnd., $map|, $elems|, $buf|, $connerr|
+
+// ------------------------------------------------------------------------------------------------
+// C10 / C08: bounded writers
+
+//@ func (*limitWriter).Write
+//@   requires l != nil && l.buf != nil && rwInv(l.rw)
+//@   ensures[C10,C08] old(blen(l.buf)) + len(data) > l.limit ==> n == 0 && err != nil && l.rw.endWritten
+//@   ensures[C10,C08] old(blen(l.buf)) + len(data) <= l.limit ==> n == len(data) && err == nil && blen(l.buf) == old(blen(l.buf)) + len(data)
+//@   ensures[C10] old(blen(l.buf)) + len(data) <= l.limit ==> l.rw.endWritten == old(l.rw.endWritten)
+//@   ensures rwInv(l.rw) && l.buf == old(l.buf) && l.rw == old(l.rw) && l.limit == old(l.limit)
+//@   ensures l.rw.w == old(l.rw.w) && l.rw.headersWritten == old(l.rw.headersWritten) && (old(l.rw.endWritten) ==> l.rw.endWritten)
+
+//@ func (*errorWriter).Write
+//@   requires e != nil && rwInv(e.rw)
+//@   ensures[C10] e.buffer != nil && old(blen(e.buffer)) + len(data) > limitOf(e.rw.op) ==> r0 == 0 && err != nil && e.rw.endWritten
+//@   ensures[C10,C08] e.buffer != nil && old(blen(e.buffer)) + len(data) <= limitOf(e.rw.op) ==> r0 == len(data) && err == nil && blen(e.buffer) == old(blen(e.buffer)) + len(data)
+//@   ensures e.buffer == nil ==> r0 == 0 && err != nil
+//@   ensures rwInv(e.rw) && e.buffer == old(e.buffer) && e.rw == old(e.rw)
+//@   ensures e.rw.w == old(e.rw.w) && e.rw.headersWritten == old(e.rw.headersWritten) && (old(e.rw.endWritten) ==> e.rw.endWritten)
+
+//@ func (noResponseBodyWriter).Write
+//@   ensures[C03] r0 == 0 && r1 != nil
+
+// ------------------------------------------------------------------------------------------------
+// C08 / C09 / C10 / C16: envelopingWriter
+
+//@ pred validLW(l, rw) = l != nil && l.buf != nil && l.rw == rw
+//@ pred sinkOK(s, rw) = (extern(s) && (typeIs(s, *bytes.Buffer) ==> unbox(s, *bytes.Buffer) != nil)) || (typeIs(s, *limitWriter) && validLW(unbox(s, *limitWriter), rw))
+//@ pred validEW(w) = w != nil && rwInv(w.rw) && w.w != nil && sinkOK(w.w, w.rw) && (w.current == nil || sinkOK(w.current, w.rw))
+// ewInv: between calls, an initialised live writer is either passing bytes through (-1) or inside
+// an envelope (1..5 bytes outstanding) or inside a payload whose sink exists.
+//@ pred ewInv(w) = validEW(w) && (w.currentIsTrailer ==> w.rw.op.serverEnveloper != nil) && (w.initialized && w.err == nil ==>
+//@ |    (w.remainingBytes == -1 && w.current != nil && !w.writingEnvelope)
+//@ | || (w.remainingBytes >= 0 && (w.writingEnvelope ==> 1 <= w.remainingBytes && w.remainingBytes <= 5 && w.rw.op.serverEnveloper != nil)
+//@ |      && (!w.writingEnvelope ==> w.current != nil) && (w.writingEnvelope ==> !w.currentIsTrailer)))
+
+//@ func (*envelopingWriter).writeBytes
+//@   requires validEW(w) && (w.writingEnvelope ==> 0 <= w.remainingBytes && w.remainingBytes <= 5) && (!w.writingEnvelope ==> w.current != nil)
+//@   ensures[C08] 0 <= r0 && r0 <= len(data) && (r1 == nil ==> r0 == len(data))
+//@   ensures[C08] old(w.writingEnvelope) ==> r0 == len(data) && r1 == nil
+//@   ensures validEW(w) && w.rw == old(w.rw) && (old(w.rw.endWritten) ==> w.rw.endWritten)
+//@   modifies w.env, #RWEND
+
+//@ func (*envelopingWriter).maybeInit
+//@   requires validEW(w) && (!w.initialized ==> w.err == nil && w.current == nil && !w.writingEnvelope && !w.mustReleaseCurrent && !w.currentIsTrailer)
+//@   requires w.initialized ==> ewInv(w)
+//@   ensures w.initialized && ewInv(w) && w.rw == old(w.rw) && w.w == old(w.w)
+//@   ensures old(w.initialized) ==> w.err == old(w.err) && w.remainingBytes == old(w.remainingBytes) && w.writingEnvelope == old(w.writingEnvelope) && w.current == old(w.current)
+//@   ensures[C03] !old(w.initialized) && w.rw.op.serverEnveloper == nil && w.rw.op.clientEnveloper != nil && w.rw.contentLen != -1 && w.err == nil ==> w.remainingBytes == w.rw.contentLen
+//@   ensures[C10,C03] !old(w.initialized) && w.rw.op.serverEnveloper == nil && w.rw.op.clientEnveloper != nil && w.rw.contentLen > limitOf(w.rw.op) ==> w.err != nil && w.rw.endWritten
+//@   ensures old(w.rw.endWritten) ==> w.rw.endWritten
+//@   modifies w.initialized, w.writingEnvelope, w.remainingBytes, w.current, w.mustReleaseCurrent, w.err, $vanguard.limitWriter., $map|, $elems|, $buf|, $connerr|
+
+//@ func (*envelopingWriter).handleEnvelopeWritten
+//@   requires validEW(w)
+//@   requires w.rw.op.serverEnveloper != nil
+//@   requires w.err == nil && w.initialized && !w.currentIsTrailer
+//@   ensures[C09] err != nil ==> w.rw.endWritten || w.err != nil
+//@   ensures[C10] err == nil ==> w.remainingBytes >= 0 && w.remainingBytes <= 4294967295 && !w.writingEnvelope && w.current != nil
+//@   ensures[C10] err == nil && w.currentIsTrailer ==> w.remainingBytes <= limitOf(w.rw.op)
+//@   ensures validEW(w) && w.rw == old(w.rw) && w.initialized && (old(w.rw.endWritten) ==> w.rw.endWritten)
+//@   ensures err == nil ==> w.err == nil
+//@   modifies w.writingEnvelope, w.current, w.mustReleaseCurrent, w.currentIsTrailer, w.trailerIsCompressed, w.remainingBytes, w.err, #RWEND
+
+//@ func (*envelopingWriter).handleTrailer
+//@   requires validEW(w)
+//@   requires w.current != nil && w.initialized
+//@   requires w.rw.op.serverEnveloper != nil
+//@   ensures[C09,C03] err == nil ==> w.rw.endWritten && w.err != nil
+//@   ensures validEW(w) && w.rw == old(w.rw) && w.initialized && (old(w.rw.endWritten) ==> w.rw.endWritten)
+//@   modifies w.mustReleaseCurrent, w.err, #RWEND
+
+//@ func (*envelopingWriter).Write
+//@   requires ewInv(w) && (!w.initialized ==> w.err == nil && w.current == nil && !w.writingEnvelope && !w.mustReleaseCurrent && !w.currentIsTrailer)
+//@   requires w.rw.op.serverEnveloper != nil
+//@   ensures[C08] 0 <= n && n <= len(data) && (err == nil ==> n == len(data))
+//@   ensures ewInv(w) && w.initialized && w.rw == old(w.rw) && (old(w.rw.endWritten) ==> w.rw.endWritten)
+//@   loop 1 invariant[C08] written >= 0 && written + len(data) == len(old(data))
+//@   loop 1 invariant ewInv(w) && w.initialized && w.remainingBytes != -1 && w.rw == old(w.rw) && (old(w.rw.endWritten) ==> w.rw.endWritten)
+//@   loop 1 decreases len(data), ite(w.writingEnvelope, 0, 1), ite(w.err == nil, 1, 0)
